@@ -192,7 +192,7 @@ def zscale(db):
 def run_kriging(ctx, exe, runner, ncase, found):
     rng = ctx.rng
     B = Batch(ctx, exe, 'krig'); plan = []
-    kinds = ['selection', 'NA-value', 'undefined-coordinate', 'undefined-fext', 'selection-NA', 'full-selection', 'empty-selection', 'masked-target', 'mixed']
+    kinds = ['selection', 'NA-value', 'undefined-coordinate', 'undefined-fext', 'selection-NA', 'full-selection', 'empty-selection', 'all-undefined', 'masked-target', 'mixed']
     for ic in range(ncase):
         ndim = rng.choice([1, 2, 2, 3]); nvar = rng.choice([1, 1, 2]); order = rng.choice([-1, 0, 0, 1])
         kind = kinds[ic % len(kinds)]
@@ -213,7 +213,7 @@ def run_kriging(ctx, exe, runner, ncase, found):
                 full, ds = apply_mask(rng, full, k, pick_rows(rng, n, 1, .2)); masks.append(ds)
         elif kind == 'masked-target': pass
         else:
-            full, ds = apply_mask(rng, full, kind); masks.append(ds)
+            full, ds = mask_any(rng, full, kind); masks.append(ds)
         fout = out
         if kind == 'masked-target' or rng.random() < .3:
             fout, ds = apply_mask(rng, out, rng.choice(['selection', 'selection', 'selection-NA', 'empty-selection'])); ds['on'] = 'dbout'; masks.append(ds)
@@ -344,7 +344,7 @@ def vario_blocks(r): return r[3]
 def run_vario(ctx, exe, ncase, found):
     rng = ctx.rng
     B = Batch(ctx, exe, 'vario'); plan = []
-    kinds = ['selection', 'NA-value', 'NA-one-variable', 'undefined-first-coordinate', 'undefined-other-coordinate', 'zero-weight', 'NA-weight', 'selection-NA', 'full-selection', 'empty-selection']
+    kinds = ['selection', 'NA-value', 'NA-one-variable', 'undefined-first-coordinate', 'undefined-other-coordinate', 'zero-weight', 'NA-weight', 'selection-NA', 'full-selection', 'empty-selection', 'all-undefined', 'all-zero-weight']
     for ic in range(ncase):
         ndim = rng.choice([1, 2, 2]); nvar = rng.choice([1, 1, 2]); kind = kinds[ic % len(kinds)]
         if kind == 'NA-one-variable': nvar = 2
@@ -354,6 +354,7 @@ def run_vario(ctx, exe, ncase, found):
         base = gen_points(rng, ndim, nvar, n, 0)
         dirs = [[rng.randint(3, 6), dy(rng.choice([2, 3, 4])), dy(Fraction(1, 2)), dy(90), [dy(1)] + [dy(0)] * (ndim - 1)]]
         if ndim == 2 and rng.random() < .5: dirs.append([rng.randint(3, 5), dy(3), dy(Fraction(1, 2)), dy(rng.choice([20, 45])), [dy(rng.choice([0, 1])), dy(1)]])
+        if kind == 'all-zero-weight': calc = rng.choice([0, 1, 9])
         if kind in ('zero-weight', 'NA-weight'):
             base.add(W, 0, [Fraction(rng.choice([1, 2, 3, 4]), 2) for _ in range(n)])
         rel = 'reduce'
@@ -363,8 +364,10 @@ def run_vario(ctx, exe, ncase, found):
             for i in rows: full.col(W)[i] = None; red.col(W)[i] = Fraction(1)
             K = list(range(n)); ds = {'kind': kind, 'rows': rows}; rel = 'weight-one'
         else:
-            full, ds = apply_mask(rng, base, kind)
-            K = usable_rows(full, need_z=('any' if kind != 'NA-one-variable' else 'none'), need_weight=(kind == 'zero-weight'))
+            if kind == 'all-zero-weight':
+                full = base.copy(); full.add(W, 0, [Fraction(0)] * n); ds = {'kind': 'zero-weight', 'rows': list(range(n)), 'aux': None}
+            else: full, ds = mask_any(rng, base, kind)
+            K = usable_rows(full, need_z=('any' if kind != 'NA-one-variable' else 'none'), need_weight=(kind in ('zero-weight', 'all-zero-weight')))
             red = full.sub(K)
         hdr = [3, ndim, nvar]; tail = [dirs, calc, 0]
         t1 = B.add(hdr + [full.sx()] + tail); t2 = B.add(hdr + [red.sx()] + tail) if K else None
@@ -473,7 +476,7 @@ def check_targets_model(ctx, runner, name, items):
 def run_stats(ctx, exe, runner, ncase, found):
     rng = ctx.rng
     B = Batch(ctx, exe, 'stats'); plan = []; mcases = []
-    kinds = ['selection', 'NA-value', 'NA-one-variable', 'selection-NA', 'full-selection', 'empty-selection', 'zero-weight', 'mixed']
+    kinds = ['selection', 'NA-value', 'NA-one-variable', 'selection-NA', 'full-selection', 'empty-selection', 'all-undefined', 'zero-weight', 'mixed']
     for ic in range(ncase):
         nvar = rng.choice([1, 2, 3]); kind = kinds[ic % len(kinds)]; n = rng.randint(4, 20)
         base = gen_points(rng, 2, nvar, n, 0, hetero=rng.random() < .3)
@@ -485,7 +488,7 @@ def run_stats(ctx, exe, runner, ncase, found):
         iso = rng.random() < .4
         masks = []; full = base
         for k in (rng.sample(['selection', 'NA-value', 'NA-one-variable'], 2) if kind == 'mixed' else [kind]):
-            full, ds = apply_mask(rng, full, k); masks.append(ds)
+            full, ds = mask_any(rng, full, k); masks.append(ds)
         zc = [k for k, c in enumerate(full.cols) if c[0] == Z]
         K = [i for i, a in enumerate(full.active()) if a]
         red = full.sub(K)
@@ -582,7 +585,7 @@ def run_stats(ctx, exe, runner, ncase, found):
 def run_matrices(ctx, exe, ncase, found):
     rng = ctx.rng
     B = Batch(ctx, exe, 'mat'); plan = []
-    kinds = ['selection', 'NA-value', 'NA-one-variable', 'undefined-coordinate', 'selection-NA', 'full-selection', 'empty-selection', 'selection@db2']
+    kinds = ['selection', 'NA-value', 'NA-one-variable', 'undefined-coordinate', 'selection-NA', 'full-selection', 'empty-selection', 'all-undefined', 'selection@db2']
     for ic in range(ncase):
         ndim = rng.choice([1, 2, 2, 3]); nvar = rng.choice([1, 2]); kind = kinds[ic % len(kinds)]
         if kind == 'NA-one-variable': nvar = 2
@@ -595,7 +598,7 @@ def run_matrices(ctx, exe, ncase, found):
             db2 = gen_points(rng, ndim, nvar if rng.random() < .5 else 0, rng.randint(3, 8), 0)
             full2, ds2 = apply_mask(rng, db2, 'selection'); K2 = usable_rows(full2, need_coords=False, need_z='none')
         if kind == 'selection@db2': full, ds = base, ds2
-        else: full, ds = apply_mask(rng, base, kind)
+        else: full, ds = mask_any(rng, base, kind)
         # rows of the matrix: per variable, active samples where the variable is defined.  Samples that carry no row at all:
         K = usable_rows(full, need_coords=True, need_z='any')
         red = full.sub(K)
@@ -657,8 +660,10 @@ def run_ranks(ctx, exe, runner, ncase, found):
     undefined coordinates, with and without useCoord; the reduction statement of theorem C05_ranks_reduce is evaluated by the model"""
     rng = ctx.rng
     B = Batch(ctx, exe, 'ranks'); mcases = []; plan = []
-    for ic in range(ncase):
-        n = rng.randint(1, 14); nz = rng.choice([0, 1, 2, 2]); nv = rng.choice([0, 0, nz]) if nz else 0
+    boundary = ['all-masked', 'nbgh-only-masked', 'all-ones', 'all-masked-nbgh', 'all-undefined-selection']
+    for ic in range(ncase + len(boundary)):
+        bkind = boundary[ic] if ic < len(boundary) else None
+        n = rng.randint(1, 14) if bkind is None else rng.randint(3, 8); nz = rng.choice([0, 1, 2, 2]); nv = rng.choice([0, 0, nz]) if nz else 0
         db = PDb(n); nd = rng.choice([1, 2])
         for d in range(nd): db.add(X, d, [None if rng.random() < .2 else Fraction(rng.randint(-9, 9)) for i in range(n)])
         for v in range(nz): db.add(Z, v, [rng.choice([None, Fraction(rng.randint(-9, 9))]) if rng.random() < .4 else Fraction(rng.randint(-9, 9)) for _ in range(n)])
@@ -670,6 +675,16 @@ def run_ranks(ctx, exe, runner, ncase, found):
         ivars = [v for v in ivars if v < max(nz, 1)] if nz else []
         nbgh = [] if rng.random() < .7 else sorted(rng.sample(range(n), rng.randint(1, n)))
         useSel = rng.random() < .8; useVerr = rng.random() < .5; useCoord = rng.random() < .5
+        if bkind is not None:
+            # the boundary cases of the rank lists (an empty explicit list means 'all samples': it must not be produced by filtering)
+            useSel = True
+            if db.col(SEL) is None: db.add(SEL, 0, [Fraction(1)] * n)
+            hasSel = True; sel = db.col(SEL)
+            if bkind in ('all-masked', 'all-masked-nbgh'): sel[:] = [Fraction(0)] * n
+            elif bkind == 'all-ones': sel[:] = [Fraction(1)] * n
+            elif bkind == 'all-undefined-selection': sel[:] = [None] * n
+            elif bkind == 'nbgh-only-masked': sel[:] = [Fraction(1)] * n; sel[0] = Fraction(0); sel[n - 1] = None
+            nbgh = [0, n - 1] if bkind == 'nbgh-only-masked' else (list(range(n)) if bkind == 'all-masked-nbgh' else [])
         t = B.add([8, db.sx(), ivars, nbgh, useSel, useVerr, useCoord])
         rows = []
         for i in range(n):
@@ -681,7 +696,7 @@ def run_ranks(ctx, exe, runner, ncase, found):
     rcm, model = run_model(ctx, runner, mf)
     if len(model) != len(mcases): print('ERROR: model runner returned %d results for %d cases' % (len(model), len(mcases))); sys.exit(3)
     for (t, weird, db), mo, mc in zip(plan, model, mcases):
-        r = B.get(t); ctx.dist('ranks:' + ('arbitrary-selection-values' if weird else 'selection-0/1') + (':useCoord' if mc[8] else ''))
+        r = B.get(t); ctx.dist('ranks:' + ('arbitrary-selection-values' if weird else 'selection-0/1') + (':useCoord' if mc[8] else '')); ctx.dist('ranks:explicit-nbgh' if mc[5] else 'ranks:all-samples')
         if r == 'crash': ctx.violation('ranks:crash', 'harness crashed', {'case': sx_str(B.cases[t])}); found[0] = True; continue
         ctx.count(sx_str(mc)[:2000])
         if mo and mo[0] == -999: print('ERROR: model rejected a ranks case'); sys.exit(3)
@@ -702,7 +717,7 @@ def c01_db(db):
 def run_kreduce_model(ctx, runner, ncase, found):
     """The Coq definition of the reduced kriging case (Spec_krige.kreduce, on which theorem C05_krige is stated) against the case that
     the implementation builds from the physically reduced Db: same samples, same covariance oracles (harvested by harness/C01.cpp)."""
-    exe01 = build_harness(ctx, 'C01')
+    exe01 = getattr(ctx, 'c01_exe', None) or build_harness(ctx, 'C01')
     if exe01 is None: print('ERROR: harness C01 does not build'); sys.exit(3)
     rng = ctx.rng; cases = []; plan = []
     kinds = ['selection', 'undefined-coordinate', 'NA-value', 'undefined-fext', 'mixed']
@@ -783,6 +798,13 @@ def run_simtub(ctx, exe, runner, ncase, found):
         masks = []; full = base; fout = out
         if kind == 'masked-target': fout, ds = apply_mask(rng, out, 'selection'); ds['on'] = 'dbout'; masks.append(ds)
         else: full, ds = apply_mask(rng, base, kind); masks.append(ds)
+        # targets 0 and 1 coincide with data, one of them masked / undefined whenever the mask is on the data
+        # (_updateData2ToTarget substitutes the value of a coinciding ACTIVE datum)
+        hit = [masks[0]['rows'][0]] if kind != 'masked-target' else []
+        hit.append(next(i for i in range(n) if i not in hit))
+        for j, i in enumerate(hit):
+            if all(full.col(X, d)[i] is not None for d in range(ndim)):
+                for d in range(ndim): fout.col(X, d)[j] = full.col(X, d)[i]
         K = usable_rows(full); KT = [i for i, a in enumerate(fout.active()) if a]
         tail = [model_sx(model), neigh, 2, 1234 + ic, 30]
         if not K or not KT: continue
@@ -814,37 +836,344 @@ def run_simtub(ctx, exe, runner, ncase, found):
         if not msgs and rf[0] == 0: titems.append((targets_model_case(7, p['fout'], p['KT'], new_columns(rr[1], nold)[2], nold), rf[1], p['scale'], rep['with_masks']))
     check_targets_model(ctx, runner, 'targets_simtub', titems)
 
+# ----------------------------------------------------------------------------- further algorithms: generic masked-versus-reduced runner
+def run_items(ctx, exe, name, items, found):
+    """items: dicts with algo, kind, masks, full (case), red (case or None), cmp(rf, rr) -> [msg], empty(rf) -> [msg], nontrivial"""
+    B = Batch(ctx, exe, name)
+    for it in items:
+        it['t'] = (B.add(it['full']), B.add(it['red']) if it['red'] is not None else None)
+    B.run()
+    for it in items:
+        ctx.dist(it['algo'] + ':' + it['kind'])
+        rf = B.get(it['t'][0]); rr = B.get(it['t'][1]) if it['t'][1] is not None else None
+        rep = {'with_masks': sx_str(it['full']), 'reduced': sx_str(it['red']) if it['red'] is not None else None, 'masks': it['masks'], 'kept': it.get('K')}
+        p = {'masks': it['masks'], 'kind': it['kind']}
+        ctx.count(rep['with_masks'][:3000], it.get('nontrivial', True))
+        if rf == 'crash' or rr == 'crash':
+            ctx.violation(it['algo'] + ':' + classify(p, 'value'), 'the calculation crashes (%s)' % ('with the masked / undefined samples present' if rf == 'crash' else 'on the reduced Db'), rep); found[0] = True; continue
+        msgs = it['cmp'](rf, rr) if rr is not None else it['empty'](rf)
+        for m_ in msgs:
+            sk = 'value'
+            if isinstance(m_, tuple): sk, m_ = m_
+            algo = it['algo']
+            # the five simple interpolators share CalcSimpleInterpolation::_preprocess (creation of the output variables)
+            if algo in ('invdist', 'movave', 'movmed', 'nearest', 'lstsq') and (sk == 'masked-target-written' or 'nothing usable' in m_) and any(x.get('on') == 'dbout' for x in it['masks']):
+                ctx.violation('simple-interpolation:masked-target-written', algo + ': ' + m_, rep); found[0] = True; continue
+            ctx.violation(algo + ':' + classify(p, sk), m_, rep); found[0] = True
+        it['rf'] = rf; it['rr'] = rr; it['ok'] = not msgs
+
+def dump_cmp(fout, KT, scale, what):
+    """comparator for calculations that write new variables into an output Db"""
+    nold = len(fout.cols)
+    def cmp(rf, rr):
+        if rf[0] != rr[0]: return [('status', '%s returns %d with the masked samples present and %d on the reduced Db' % (what, rf[0], rr[0]))]
+        msgs = [(sk, m_) for sk, m_ in compare_rows(rf[1], rr[1], nold, nold, KT, fout, scale)]
+        n, old, new = new_columns(rf[1], nold); act = fout.active()
+        for j, c in enumerate(new):
+            for i in range(n):
+                if not act[i] and c[2][i] is not None: msgs.append(('masked-target-written', 'masked target %d received %s in new variable %d' % (i, fl(c[2][i]), j))); break
+        return msgs
+    def empty(rf):
+        n, old, new = new_columns(rf[1], nold); msgs = []
+        for j, c in enumerate(new):
+            for i in range(n):
+                if c[2][i] is not None: msgs.append('nothing usable, yet target %d received %s in new variable %d' % (i, fl(c[2][i]), j)); break
+        return msgs
+    return cmp, empty
+
+BOUNDARY_KINDS = ['full-selection', 'empty-selection', 'all-undefined']
+
+def mask_any(rng, db, kind, rows=None):
+    """apply_mask plus the boundary kinds shared by all generators"""
+    if kind == 'all-undefined':
+        d = db.copy()
+        for c in d.cols:
+            if c[0] == Z: c[2][:] = [None] * d.n
+        return d, {'kind': kind, 'rows': list(range(d.n)), 'aux': None}
+    return apply_mask(rng, db, kind, rows)
+
+def run_interp(ctx, exe, ncase, found):
+    """inverseDistance, movingAverage, movingMedian, nearestNeighbor, leastSquares, migrate (point to point)"""
+    rng = ctx.rng; items = []
+    kinds = ['selection', 'NA-value', 'undefined-coordinate', 'selection-NA', 'masked-target'] + BOUNDARY_KINDS
+    algos = ['invdist', 'movave', 'movmed', 'nearest', 'lstsq', 'migrate']
+    for ic in range(ncase):
+        algo = algos[ic % len(algos)]; kind = kinds[(ic // len(algos)) % len(kinds)]
+        ndim = rng.choice([1, 2, 2]); n = rng.randint(8, 16); m = 5
+        base = gen_points(rng, ndim, 1, n, 0); out = gen_points(rng, ndim, 0, m, 0, keepcol=True)
+        if rng.random() < .5:
+            for d in range(ndim): out.col(X, d)[0] = base.col(X, d)[0]      # a target on a datum
+        masks = []; full = base; fout = out
+        if kind == 'masked-target': fout, ds = apply_mask(rng, out, rng.choice(['selection', 'selection-NA', 'empty-selection'])); ds['on'] = 'dbout'; masks.append(ds)
+        else: full, ds = mask_any(rng, base, kind); masks.append(ds)
+        K = usable_rows(full); KT = [i for i, a in enumerate(fout.active()) if a]
+        neigh = [1, 1, rng.choice([3, 5, 8]), dy(rng.choice([15, 1000]))] if rng.random() < .7 else [0]
+        rng_dmax = rng.choice([None, None, 10])
+        if algo == 'invdist': mk = lambda a, b, dm=rng_dmax: [20, ndim, a, b, dy(2), dy(dm)]
+        elif algo == 'migrate':
+            ball = False; dm = rng.choice([[], [], [dy(8)] * ndim])
+            mk = lambda a, b, dm=dm: [24, ndim, a, b, ndim, 1, dm, ball]        # column ndim = z1
+        else:
+            ty = {'movave': 0, 'movmed': 1, 'nearest': 2, 'lstsq': 3}[algo]; order = rng.choice([0, 1])
+            if algo == 'lstsq' and neigh == [0]: pass
+            mk = lambda a, b, ty=ty, order=order, neigh=neigh: [21, ndim, a, b, neigh, ty, order]
+        cmp, empty = dump_cmp(fout, KT, zscale(base), algo)
+        items.append({'algo': algo, 'kind': kind, 'masks': masks, 'K': K, 'fout': fout, 'KT': KT, 'full': mk(full.sx(), fout.sx()),
+                      'red': mk(full.sub(K).sx(), fout.sub(KT).sx()) if K and KT else None, 'cmp': cmp, 'empty': empty,
+                      'nontrivial': len(K) < full.n or len(KT) < fout.n})
+    run_items(ctx, exe, 'interp', items, found)
+    return items
+
+def check_interp_model(ctx, runner, items):
+    """inverseDistance (exponent 2) and migrate (no dmax) against the Coq models invdist / migrate_value, target by target"""
+    mcases = []; ref = []
+    for it in items:
+        if it['algo'] not in ('invdist', 'migrate') or not it.get('ok') or it.get('rf') in (None, 'crash'): continue
+        c = it['full']; ndim = c[1]; dbin = c[2]; dbout = c[3]
+        if it['algo'] == 'migrate' and c[6] != []: continue
+        def col(db, loc, idx):
+            for cc in db[1]:
+                if cc[0] == loc and cc[1] == idx: return cc[2]
+            return None
+        n = dbin[0]; sel = col(dbin, SEL, 0)
+        rows = [[sel[i] if sel is not None else [], [], [col(dbin, X, d)[i] for d in range(ndim)], [col(dbin, Z, 0)[i]], []] for i in range(n)]
+        osel = col(dbout, SEL, 0)
+        tg = [j for j in range(dbout[0]) if osel is None or (osel[j] != [] and undy(osel[j]) != 0)]
+        targets = [[col(dbout, X, d)[j] for d in range(ndim)] for j in tg]
+        if it['algo'] == 'invdist':
+            dm = undy(c[5]); mc = [9, sel is not None, dy(Fraction(1, 2 ** 20)), dy(dm * dm) if dm is not None else [], targets, rows]
+        else: mc = [10, sel is not None, [], targets, rows]
+        mcases.append(mc); ref.append((it, tg))
+    mf = write_cases(ctx, 'interp_model', mcases)
+    rcm, model = run_model(ctx, runner, mf)
+    if len(model) != len(mcases): print('ERROR: model runner returned %d results for %d cases' % (len(model), len(mcases))); sys.exit(3)
+    for (it, tg), mo, mc in zip(ref, model, mcases):
+        if mo and mo[0] == -999: print('ERROR: model rejected an interpolation case'); sys.exit(3)
+        ctx.count(sx_str(mc)[:2000])
+        n, cols = parse_dump(it['rf'][1]); newcol = cols[-1][2]
+        bad = None
+        if mo[0] != mo[1]: bad = 'model: result differs from the result on the reduced table (theorem C05_%s contradicted?)' % it['algo']
+        for k, j in enumerate(tg):
+            if bad: break
+            if not close(newcol[j], unq(mo[0][k]), 20.0, 1e-8): bad = 'target %d: impl %s, model %s' % (j, fl(newcol[j]), fl(unq(mo[0][k])))
+        if bad: ctx.violation('model-drift:' + it['algo'], bad, {'impl_case': sx_str(it['full']), 'model_case': sx_str(mc)}, found_input=False)
+    # output initialisation: the table of the model (run_targets: new cells undefined, then the reduced-Db results at the active targets)
+    titems = []
+    for it in items:
+        if not it.get('ok') or it.get('rr') in (None, 'crash') or it.get('rf') in (None, 'crash') or it['rf'][0] != 0: continue
+        fout = it.get('fout')
+        if fout is None: continue
+        nold = len(fout.cols)
+        titems.append((targets_model_case(4, fout, it['KT'], new_columns(it['rr'][1], nold)[2], nold), it['rf'][1], 20.0, sx_str(it['full'])))
+    check_targets_model(ctx, runner, 'targets_interp', titems)
+
+def table_cmp(names, scale, tol=TOL):
+    def cmp(rf, rr):
+        for name, a, b in zip(names, rf, rr):
+            if isinstance(a, int) or isinstance(b, int):
+                if a != b: return ['%s: %s with the masked samples present, %s on the reduced Db' % (name, a, b)]
+                continue
+            fa = flat_d(a); fb = flat_d(b)
+            if len(fa) != len(fb): return ['%s: %d values with the masked samples present, %d on the reduced Db' % (name, len(fa), len(fb))]
+            for k, (x, y) in enumerate(zip(fa, fb)):
+                if not close(x, y, scale, tol): return ['%s[%d]: %s with the masked samples present, %s on the reduced Db' % (name, k, fl(x), fl(y))]
+        return []
+    return cmp
+
+def flat_d(x):
+    """all dyadics of a nested result, in order"""
+    if x == []: return [None]
+    if isinstance(x, list) and len(x) == 2 and all(isinstance(v, int) for v in x): return [undy(x)]
+    out = []
+    for y in x: out += flat_d(y)
+    return out
+
+def run_regression(ctx, exe, runner, ncase, found):
+    rng = ctx.rng; items = []
+    kinds = ['selection', 'NA-value', 'NA-aux', 'selection-NA'] + BOUNDARY_KINDS
+    for ic in range(ncase):
+        kind = kinds[ic % len(kinds)]; n = rng.randint(6, 16); naux = rng.choice([1, 2]); flagCst = rng.random() < .6
+        base = gen_points(rng, 1, 1, n, 0)
+        for a in range(naux): base.add(NONE, a, [Fraction(rng.randint(-40, 40), 4) for _ in range(n)])
+        if kind == 'NA-aux':
+            full = base.copy(); rows = pick_rows(rng, n)
+            for i in rows: full.cols[2 + rng.randrange(naux)][2][i] = None
+            ds = {'kind': 'NA-value', 'rows': rows, 'aux': None}
+        else: full, ds = mask_any(rng, base, kind)
+        act = full.active()
+        K = [i for i in range(n) if act[i] and all(full.cols[k][2][i] is not None for k in range(1, 2 + naux))]
+        mk = lambda d: [22, d.sx(), 1, list(range(2, 2 + naux)), flagCst]
+        sc = zscale(base) ** 2
+        def empty(rf): return [] if rf[0] == 0 else ['no usable sample, yet %d samples are counted' % rf[0]]
+        items.append({'algo': 'regression', 'kind': kind, 'masks': [ds], 'K': K, 'full': mk(full), 'red': mk(full.sub(K)) if K else None,
+                      'cmp': table_cmp(['count', 'coefficients', 'variance', 'residual variance'], sc, 1e-7), 'empty': empty, 'nontrivial': len(K) < n,
+                      'db': full, 'naux': naux, 'cst': flagCst})
+    run_items(ctx, exe, 'regr', items, found)
+    # correspondence with the Coq accumulation (regr_acc) and the normal equations solved exactly
+    mcases = []
+    for it in items:
+        d = it['db']; rows = rows_of(d, [1] + list(range(2, 2 + it['naux'])))
+        mcases.append([8, d.col(SEL) is not None, it['cst'], it['naux'], rows])
+    mf = write_cases(ctx, 'regr_model', mcases)
+    rcm, model = run_model(ctx, runner, mf)
+    if len(model) != len(mcases): print('ERROR: model runner returned %d results for %d cases' % (len(model), len(mcases))); sys.exit(3)
+    for it, mo, mc in zip(items, model, mcases):
+        if mo and mo[0] == -999: print('ERROR: model rejected a regression case'); sys.exit(3)
+        rf = it.get('rf')
+        if rf in (None, 'crash'): continue
+        ctx.count(sx_str(mc)[:2000])
+        num, coeffs, st_full, st_usable, st_red = mo
+        same = (st_full == st_usable == st_red)
+        bad = None
+        if not same: bad = 'model: accumulators differ from those of the reduced table (theorem C05_regression contradicted?)'
+        elif rf[0] != num and not (num > 0 and coeffs == [] and rf[0] == 0): bad = 'count: impl %d, model %d' % (rf[0], num)
+        elif coeffs != [] and rf[0] > 0:
+            ic_ = [undy(x) for x in rf[1]]; mc_ = [unq(x) for x in coeffs]
+            if len(ic_) != len(mc_) or any(not close(x, y, 1.0, 1e-6) for x, y in zip(ic_, mc_)): bad = 'coefficients: impl %s, exact solution of the normal equations %s' % ([fl(x) for x in ic_], [fl(x) for x in mc_])
+        if bad: ctx.violation('model-drift:regression', bad, {'impl_case': sx_str(it['full']), 'model_case': sx_str(mc)}, found_input=False)
+
+def run_percell(ctx, exe, ncase, found):
+    rng = ctx.rng; items = []
+    kinds = ['selection', 'NA-value', 'NA-one-variable', 'undefined-coordinate', 'selection-NA'] + BOUNDARY_KINDS
+    for ic in range(ncase):
+        kind = kinds[ic % len(kinds)]; n = rng.randint(6, 20)
+        base = PDb(n)
+        for d in range(2): base.add(X, d, [Fraction(rng.randint(0, 23), 4) for _ in range(n)])
+        for v in range(2): base.add(Z, v, [Fraction(rng.randint(-80, 80), 8) for _ in range(n)])
+        full, ds = mask_any(rng, base, kind)
+        oper = rng.choice([0, 1, 2, 3, 4, 5, 6]); c1 = 2; c2 = 3 if oper == 6 else -1
+        act = full.active()
+        K = [i for i in range(n) if act[i] and full.col(Z, 0)[i] is not None and (oper != 6 or full.col(Z, 1)[i] is not None)
+             and all(full.col(X, d)[i] is not None for d in range(2))]
+        grid = [[3, 3], [dy(2), dy(2)], [dy(0), dy(0)], []]
+        mk = lambda d: [23, 2, d.sx(), grid, c1, c2, oper]
+        def empty(rf): return [] if all((v or 0) == 0 for v in flat_d(rf[0]) if True) or all(v is None or v == 0 for v in flat_d(rf[0])) else ['no usable sample, yet a cell holds %s' % [fl(v) for v in flat_d(rf[0])]]
+        outside = PDb(1)
+        for d in range(2): outside.add(X, d, [Fraction(1000)])
+        for v in range(2): outside.add(Z, v, [Fraction(1)])
+        items.append({'algo': 'percell', 'kind': kind, 'masks': [ds], 'K': K, 'full': mk(full), 'red': mk(full.sub(K)) if K else mk(outside),
+                      'cmp': table_cmp(['dbStatisticsPerCell'], zscale(base) ** 2), 'empty': empty, 'nontrivial': len(K) < n})
+    run_items(ctx, exe, 'percell', items, found)
+
+def run_gridvario(ctx, exe, ncase, found):
+    """a grid cannot be physically reduced: a masked cell must behave as a cell whose values are undefined"""
+    rng = ctx.rng; items = []
+    kinds = ['selection', 'selection-NA', 'full-selection', 'empty-selection']
+    for ic in range(ncase):
+        kind = kinds[ic % len(kinds)]; nx = [rng.randint(3, 6), rng.randint(2, 5)]; n = nx[0] * nx[1]; nvar = rng.choice([1, 1, 2])
+        zs = [[(None if rng.random() < .1 else Fraction(rng.randint(-80, 80), 8)) for _ in range(n)] for v in range(nvar)]
+        sel = [Fraction(1)] * n; rows = pick_rows(rng, n)
+        if kind == 'selection':
+            for i in rows: sel[i] = Fraction(0)
+        elif kind == 'selection-NA':
+            for i in rows: sel[i] = None
+        elif kind == 'empty-selection': sel = [Fraction(0)] * n; rows = list(range(n))
+        else: rows = []
+        blank = [[(None if i in rows else zs[v][i]) for i in range(n)] for v in range(nvar)]
+        cols_full = [[Z, v, [dy(x) for x in zs[v]]] for v in range(nvar)] + [[SEL, 0, [dy(x) for x in sel]]]
+        cols_red = [[Z, v, [dy(x) for x in blank[v]]] for v in range(nvar)]
+        calc = rng.choice([0, 0, 1, 9])
+        dirs = [[rng.randint(2, 3), [1, 0]], [2, [rng.choice([0, 1]), 1]]]
+        gfull = [nx, [dy(1), dy(1)], [dy(0), dy(0)], cols_full]; gred = [nx, [dy(1), dy(1)], [dy(0), dy(0)], cols_red]
+        def cmp(rf, rr, sc=float(max([abs(x) for z in zs for x in z if x is not None] + [1])) ** 2):
+            if rf[0] != rr[0]: return ['computeFromDb %s with the selection and %s on the grid with undefined values' % ('succeeds' if rf[0] else 'fails', 'succeeds' if rr[0] else 'fails')]
+            if not rf[0]: return []
+            fa = flat_d(rf[3]) + flat_d(rf[2]); fb = flat_d(rr[3]) + flat_d(rr[2])
+            for k, (x, y) in enumerate(zip(fa, fb)):
+                if not close(x, y, sc): return ['value %d of the dump (sw/hh/gg per direction, then variances): %s with the selection, %s with undefined values instead' % (k, fl(x), fl(y))]
+            return []
+        items.append({'algo': 'vario-grid', 'kind': kind, 'masks': [{'kind': kind, 'rows': rows}], 'K': None, 'full': [25, 2, gfull, dirs, calc],
+                      'red': [25, 2, gred, dirs, calc], 'cmp': cmp, 'empty': None, 'nontrivial': bool(rows)})
+    run_items(ctx, exe, 'gridvario', items, found)
+
+def run_vmap_vcloud(ctx, exe, ncase, found):
+    rng = ctx.rng; items = []
+    kinds = ['selection', 'NA-value', 'selection-NA'] + BOUNDARY_KINDS
+    for ic in range(ncase):
+        kind = kinds[(ic // 2) % len(kinds)]; n = rng.randint(6, 16); algo = ['vmap', 'vcloud'][ic % 2]; nvar = 1 if algo == 'vcloud' else rng.choice([1, 2])
+        base = gen_points(rng, 2, nvar, n, 0)
+        # distinct first coordinates: VMap sorts the samples on it with an unstable sort and orients each pair by that order
+        # (cross terms z1(i) z2(j)), so that a tie makes the result depend on the number of samples - ties are excluded
+        xs = rng.sample(range(-48, 48), n); base.col(X, 0)[:] = [Fraction(v, 4) for v in xs]
+        full, ds = mask_any(rng, base, kind)
+        K = usable_rows(full)
+        if algo == 'vmap':
+            calc = rng.choice([0, 1]); mk = lambda d: [26, 2, nvar, d.sx(), calc, [2, 2], [dy(Fraction(33, 8)), dy(Fraction(33, 8))]]   # cell edges never hit by a separation (multiples of 1/4): no tie
+        else:
+            dr = [5, dy(3), dy(Fraction(1, 2)), dy(90), [dy(1), dy(0)]]; mk = lambda d: [27, 2, d.sx(), dr, dy(20), dy(2000), 5, 4]
+        def cmp(rf, rr, sc=zscale(base) ** 2):
+            if rf[0] != rr[0]: return ['%s with the masked samples present, %s on the reduced Db' % ('succeeds' if rf[0] else 'fails', 'succeeds' if rr[0] else 'fails')]
+            fa = flat_d(rf[1]); fb = flat_d(rr[1])
+            if len(fa) != len(fb): return ['%d values with the masked samples present, %d on the reduced Db' % (len(fa), len(fb))]
+            for k, (x, y) in enumerate(zip(fa, fb)):
+                if not close(x, y, sc): return ['cell value %d: %s with the masked samples present, %s on the reduced Db' % (k, fl(x), fl(y))]
+            return []
+        def empty(rf):
+            if not rf[0]: return []
+            return [] if all(v is None or v == 0 for v in flat_d(rf[1])) else ['no usable sample, yet a cell holds a value']
+        items.append({'algo': algo, 'kind': kind, 'masks': [ds], 'K': K, 'full': mk(full), 'red': mk(full.sub(K)) if K else None, 'cmp': cmp, 'empty': empty, 'nontrivial': len(K) < n})
+    run_items(ctx, exe, 'vmap', items, found)
+
+def run_fits(ctx, exe, ncase, found):
+    """PCA and Hermite anamorphosis fitted on a Db with masked samples = fitted on the reduced Db"""
+    rng = ctx.rng; items = []
+    kinds = ['selection', 'NA-value', 'selection-NA', 'full-selection']
+    for ic in range(ncase):
+        kind = kinds[(ic // 2) % len(kinds)]; algo = ['pca', 'anam'][ic % 2]; n = rng.randint(10, 24); nvar = rng.choice([2, 3]) if algo == 'pca' else 1
+        base = gen_points(rng, 2, nvar, n, 0)
+        if algo == 'anam':      # distinct values (the fit sorts them)
+            vals = rng.sample(range(-200, 200), n); base.col(Z, 0)[:] = [Fraction(v, 8) for v in vals]
+        full, ds = mask_any(rng, base, kind, pick_rows(rng, n, 1, .25) if kind != 'full-selection' else None)
+        act = full.active()
+        K = [i for i in range(n) if act[i] and all(full.col(Z, v)[i] is not None for v in range(nvar))]
+        if len(K) < 4: continue
+        mk = (lambda d: [28, d.sx()]) if algo == 'pca' else (lambda d: [29, d.sx(), 6])
+        names = ['status', 'eigenvalues', 'means', 'standard deviations'] if algo == 'pca' else ['status', 'Hermite coefficients']
+        items.append({'algo': algo + '-fit', 'kind': kind, 'masks': [ds], 'K': K, 'full': mk(full), 'red': mk(full.sub(K)), 'cmp': table_cmp(names, zscale(base), 1e-7), 'empty': None, 'nontrivial': len(K) < n})
+    run_items(ctx, exe, 'fits', items, found)
+
 # ----------------------------------------------------------------------------- corpus
 def run_corpus(ctx, exe, found):
-    """corpus lines: '<key>\\t<full case>\\t<reduced case>\\t<K as sx>\\t<nold>' kept from earlier failures (kriging-like ops only)"""
+    """corpus lines: '<key>\t<full case>\t<reduced case>\t<K as sx>\t<nold>[\t<masked rows as sx>]' kept from earlier failures (operations that
+    write new variables into an output Db): values at the kept rows K must agree with the reduced run, the new variables must be
+    undefined at the masked rows"""
     p = os.path.join(VERIF, 'corpus', 'C05.sx')
     if not os.path.exists(p): return
     B = Batch(ctx, exe, 'corpus'); plan = []
     for line in open(p):
         line = line.rstrip('\n')
         if not line or line.startswith('#'): continue
-        key, full, red, K, nold = line.split('\t')
-        plan.append((key, B.add(sx_parse(full)), B.add(sx_parse(red)), sx_parse(K), int(nold)))
+        f = line.split('\t')
+        key, full, red, K, nold = f[:5]; masked = sx_parse(f[5]) if len(f) > 5 else []
+        plan.append((key, B.add(sx_parse(full)), B.add(sx_parse(red)), sx_parse(K), int(nold), masked))
     if not plan: return
     B.run()
-    for key, t1, t2, K, nold in plan:
+    for key, t1, t2, K, nold, masked in plan:
         rf, rr = B.get(t1), B.get(t2); ctx.dist('corpus'); ctx.count('corpus:' + key)
         rep = {'with_masks': sx_str(B.cases[t1]), 'reduced': sx_str(B.cases[t2]), 'kept': K}
         if rf == 'crash' or rr == 'crash': ctx.violation(key, 'harness crashed on a corpus case', rep); found[0] = True; continue
         if rf[0] != rr[0]: ctx.violation(key, 'status %d with masks, %d reduced (corpus case)' % (rf[0], rr[0]), rep); found[0] = True; continue
         n, old, new = new_columns(rf[1], nold); nr, oldr, newr = new_columns(rr[1], nold)
         for j, (c, cr) in enumerate(zip(new, newr)):
+            bad = None
             for a, i in enumerate(K):
-                if not close(c[2][i], cr[2][a], 20.0):
-                    ctx.violation(key, 'corpus case: new variable %d at row %d: %s with masks, %s reduced' % (j, i, fl(c[2][i]), fl(cr[2][a])), rep); found[0] = True; break
+                if not close(c[2][i], cr[2][a], 20.0): bad = 'corpus case: new variable %d at row %d: %s with masks, %s reduced' % (j, i, fl(c[2][i]), fl(cr[2][a])); break
+            for i in masked:
+                if bad is None and c[2][i] is not None: bad = 'corpus case: masked row %d received %s in new variable %d' % (i, fl(c[2][i]), j)
+            if bad: ctx.violation(key, bad, rep); found[0] = True; break
 
 # ----------------------------------------------------------------------------- main
 def run(ctx):
     build_lib(ctx); ctx.log('library built')
     debug_partial = bool(os.environ.get('C05_ONLY') or os.environ.get('C05_SKIP_COQ'))    # debugging aids: such a run is never a verdict (exit 3)
+    # the two C++ harnesses compile while Coq re-checks the theorems and extracts the runner
+    import threading
+    built = {}
+    th = threading.Thread(target=lambda: built.update(C05=build_harness(ctx, 'C05'), C01=build_harness(ctx, 'C01')))
+    th.start()
     if os.environ.get('C05_SKIP_COQ'): proofs_ok = True; ctx.log('theorems NOT re-checked (C05_SKIP_COQ)')
     else: proofs_ok = coq_properties(ctx); ctx.log('theorems re-checked: %s' % ('ok' if proofs_ok else 'BROKEN'))
-    runner = build_runner(ctx); exe = build_harness(ctx, 'C05'); ctx.log('runner and harness built')
+    runner = build_runner(ctx); th.join(); exe = built.get('C05'); ctx.c01_exe = built.get('C01'); ctx.log('runner and harnesses built')
     if runner is None or exe is None:
         print('ERROR: model runner or harness does not build'); sys.exit(3)
     q = ctx.quick()
@@ -862,6 +1191,12 @@ def run(ctx):
     if want('ranks'): run_ranks(ctx, exe, runner, 120 if q else 1500, found)
     if want('kreduce'): run_kreduce_model(ctx, runner, 30 if q else 300, found)
     if want('simtub'): run_simtub(ctx, exe, runner, 16 if q else 120, found)
+    if want('interp'): check_interp_model(ctx, runner, run_interp(ctx, exe, 96 if q else 960, found))
+    if want('regression'): run_regression(ctx, exe, runner, 28 if q else 280, found)
+    if want('percell'): run_percell(ctx, exe, 32 if q else 320, found)
+    if want('gridvario'): run_gridvario(ctx, exe, 24 if q else 240, found)
+    if want('vmap'): run_vmap_vcloud(ctx, exe, 36 if q else 360, found)
+    if want('fits'): run_fits(ctx, exe, 16 if q else 160, found)
     if only is not None: ctx.notes.append('partial run: C05_ONLY=%s' % ','.join(only))
     ctx.cov['rule'] = ('case = (algorithm, Db, kind of masking): kriging / xvalid (unique and moving neighbourhoods, SK/OK/UK, 1-2 variables, heterotopic), '
                        'experimental variograms (1-2 variables, 1-2 directions, variogram / covariance), statistics (Mono, Multi, Correl, variance matrix, per-sample), '
